@@ -75,3 +75,69 @@ def run_c18_op(d, scn, scratch, prefix):
         return {"outcome": "killed"}
     return {"outcome": "unknown", "rc": p.returncode,
             "stderr": p.stderr[-400:]}
+
+
+# ---- kernel-level enumeration (C18 family "kernel") -------------------------
+KCLASS = {"read": "read,pread64,readv,preadv",
+          "write": "write,pwrite64,writev,pwritev"}
+_KLINE = None
+
+
+def kernel_calls(d, scn, scratch):
+    """Fault-free run of the operation in a child under strace: the read- and
+    write-class system calls it issues on files below d, whoever issues them
+    (Python's io, a C extension, numpy's fromfile/tofile). Returns (list of
+    (class, relative path) in call order, child result)."""
+    import re
+    global _KLINE
+    if _KLINE is None:
+        _KLINE = re.compile(r"^\d+\s+(\w+)\((\d+)<([^>]*)>")
+    log = os.path.join(scratch, "klist-%d.log" % os.getpid())
+    res = run_c18_op(d, scn, scratch, [
+        "strace", "-f", "-y", "-qq", "-o", log, "-e",
+        "trace=" + KCLASS["read"] + "," + KCLASS["write"]])
+    calls = []
+    root = os.path.realpath(d) + os.sep
+    which = {}
+    for cls, names in KCLASS.items():
+        for nm in names.split(","):
+            which[nm] = cls
+    try:
+        with open(log, errors="replace") as f:
+            for line in f:
+                m = _KLINE.match(line)
+                if not m or m.group(1) not in which:
+                    continue
+                path = os.path.realpath(m.group(3))
+                if path.startswith(root):
+                    calls.append((which[m.group(1)], path[len(root):]))
+    finally:
+        try:
+            os.unlink(log)
+        except OSError:
+            pass
+    return calls, res
+
+
+def kernel_inject(d, scn, scratch, cls, rel, when, what):
+    """the operation in a child with the when-th call of class cls on the
+    file rel answered by `what` ("error=EIO", "signal=SIGKILL", ...);
+    returns (child result, whether strace reports the injection)"""
+    log = os.path.join(scratch, "kinj-%d.log" % os.getpid())
+    res = run_c18_op(d, scn, scratch, [
+        "strace", "-f", "-qq", "-o", log, "-P", os.path.join(d, rel),
+        "-e", "trace=" + KCLASS[cls], "-e",
+        "inject=%s:%s:when=%d" % (KCLASS[cls], what, when)])
+    injected = False
+    try:
+        with open(log, errors="replace") as f:
+            txt = f.read()
+        injected = "(INJECTED)" in txt or "SIGKILL" in txt
+    except OSError:
+        pass
+    finally:
+        try:
+            os.unlink(log)
+        except OSError:
+            pass
+    return res, injected
